@@ -196,7 +196,13 @@ class _SmallStackT(T):
         return Stack(items)
 
 
-_op_contract('op_pick', sp.op_pick, pin_fn=_pins.op_pick, stack_t=_SmallStackT(), bounded='stack depth <= 6, operand length <= 5 bytes')
+def _top_num(self):
+    return len(self) == 0 or len(self[-1]) <= 8
+
+
+# PICK on stacks of ANY depth: the symbolic stack position goes through the list model (operand of up to 8 bytes; longer operands fail in consensus
+# and are not covered here).  ROLL removes an element at a symbolic position, which the list model only does up to a bound: it stays a bounded case.
+_op_contract('op_pick', sp.op_pick, pin_fn=_pins.op_pick, requires=_top_num)
 _op_contract('op_roll', sp.op_roll, pin_fn=_pins.op_roll, stack_t=_SmallStackT(), bounded='stack depth <= 6, operand length <= 5 bytes')
 for _n, _s in [('op_numlessthan', 'op_lessthan'), ('op_numgreaterthan', 'op_greaterthan'),
                ('op_numlessthanorequal', 'op_lessthanorequal'), ('op_numgreaterthanorequal', 'op_greaterthanorequal')]:
